@@ -473,7 +473,8 @@ fn used_imports<'a, 'b: 'a>(
                     .entry(&referenced_import.base_crate)
                     .and_modify(|names: &mut BTreeSet<&str>| {
                         names.extend(type_names.iter().map(|s| s.as_str()))
-                    });
+                    })
+                    .or_insert_with(|| type_names.iter().map(|s| s.as_str()).collect());
             } else if let Some(ty_name) = type_names.get(&referenced_import.type_name) {
                 // Add referenced import for each matching type.
                 used_imports
